@@ -90,4 +90,9 @@ for _pid, _why in {
     'C17': "quantifies over thread interleavings (same reason as C16); the sequential facts it rests on are proved under C01/C11/C12 but do not decide it",
 }.items():
     na(_pid, _why)
-na('C15', "not claimed: the async port (src/async_vfs/**) is a line-by-line port whose units are not under contract yet; independence from poll schedules (Pending at arbitrary points) is a statement over schedules that no contract within reach can express (DESIGN section 5, C15)")
+claim('C15',
+      "Every function of the async path type (primitives and composites except the walk_dir stream), of AsyncAltrootFS and of AsyncOverlayFS is extracted from src/async_vfs on this run, read through rule R30 (await erasure: `.await` dropped, `async fn` -> `fn`, port type names mapped to the sync names, Stream -> Iterator, `while let Some(x) = s.next()` -> `for`, `async { .. }.await` -> immediately invoked closure) and "
+      "proved by Verus against the SAME contracts, loop invariants and lemmas that the sync functions are proved against (units U26-U29 are `derive`d from U06-U09, nothing is restated): both sides meet the trait contract TC / path contract PC, frames and serving semantics, and where these contracts are exact (success exactly when the precondition holds, exact effect, error classes) the outcomes, error classes and observable trees coincide. "
+      "Not within reach and decided by a bounded stand-in only: AsyncMemoryFS, AsyncPhysicalFS, their read/write handles, copy_dir/move_dir and the hand-written Stream::poll_next of walk_dir (watched by source hash); the differential oracle (replay/src/bin/adiff.rs) runs the sync and async APIs side by side, including a filesystem whose every call and stream item returns Pending k = 0..3 times first. Independence from ALL poll schedules is not a statement a contract within reach can express: it is covered only by that bounded schedule exploration.",
+      "Assumed: an await point is transparent (one task, no interleaving between the steps of an operation - rule R30a); the sync contracts themselves are proved under C01-C14/C19/C20; known findings of the sync overlay are shared by the port and are not C15 violations. The bounded parts are labelled bounded and never counted as discharged.",
+      "DESIGN.md section 5, C15")
